@@ -17,10 +17,14 @@ def respOf? (t R : Nat) (a : String) : Option PeerResp :=
   else match a.splitOn ":" with
     | ["main", h] => h.toNat?.map fun h => .head h h (vhdrVerdict t R false h)
     | ["fork", h] => h.toNat?.map fun h => .head (1000 + h) h (vhdrVerdict t R true h)
+    | ["big", k] => k.toNat?.map fun k => .head (2000 + k) (2^63 + k) (vhdrVerdict t R false (2^63 + k))
     | _ => none
 
+def tagOf (id h : Nat) : String :=
+  if id ≥ 2000 then s!"big:{h - 2^63}" else if id ≥ 1000 then s!"fork:{h}" else s!"main:{h}"
+
 def resTag : HeadRes → String × String
-  | .found id h s => ((if id ≥ 1000 then s!"fork:{h}" else s!"main:{h}"), if s then "soft" else "nil")
+  | .found id h s => (tagOf id h, if s then "soft" else "nil")
   | .notFound => ("zero", "notfound")
   | .ctxErr => ("zero", "ctx")
 
@@ -37,7 +41,7 @@ def c09_ok (useTracked : Bool) (n : Nat) (resps : List PeerResp) (head err : Str
      if err == "ctx" && !anyHang then some "c09_ctx_only_if_hang" else none)
   else
     -- the returned header was reported by an asked peer and did not fail hard
-    match usable.find? (fun (id, h, _) => (if id ≥ 1000 then s!"fork:{h}" else s!"main:{h}") == head) with
+    match usable.find? (fun (id, h, _) => tagOf id h == head) with
     | none => some "c09_returned_was_reported_and_not_hard"
     | some (id, h, v) =>
       if useTracked && err == "nil" && v != .ok then some "c09_nil_means_verified" else
